@@ -25,3 +25,21 @@ def make_wcs(scale_deg=1e-3, rot=(1, 0, 1), parity=1, frame='icrs', proj='TAN', 
         w.wcs.equinox = equinox
     w.wcs.set()
     return w
+
+
+def redescribe_units(sky, idx):
+    """The same sky region with its angle and sizes handed over in other units (compounds: member-wise)."""
+    import astropy.units as u
+    from regions.core.compound import CompoundSkyRegion
+    if isinstance(sky, CompoundSkyRegion):
+        return CompoundSkyRegion(redescribe_units(sky.region1, idx), redescribe_units(sky.region2, idx + 1), sky.operator,
+                                 meta=sky.meta.copy(), visual=sky.visual.copy())
+    kw = {}
+    for pn in sky._params:
+        v = getattr(sky, pn)
+        if pn == 'angle':
+            v = v.to([u.rad, u.arcmin, u.deg][idx % 3])
+        elif pn not in ('center', 'vertices', 'start', 'end', 'text'):
+            v = v.to([u.arcmin, u.deg, u.rad, u.arcsec][(idx // 3) % 4])
+        kw[pn] = v
+    return type(sky)(**kw, meta=sky.meta.copy(), visual=sky.visual.copy())
